@@ -803,8 +803,13 @@ class ISLaSolver:
         inp = self.parse(inp, skip_check=True) if isinstance(inp, str) else inp
 
         try:
-            if self.check(inp) or not is_successful(self.top_constant):
+            if self.check(inp):
                 return Some(inp)
+
+            if not is_successful(self.top_constant):
+                # The constraint does not refer to the input (e.g., it was
+                # simplified to "false"): No change of the input can satisfy it.
+                return Nothing
         except UnknownResultError:
             pass
 
